@@ -205,3 +205,35 @@ def bbrepr_facts():
         ('limits', 'every integer limit of reprlib.Repr is 1024 on glom\'s repr helper', limits),
         ('probes', 'bbrepr equals repr on long ints, 8-deep lists, 300-element lists, strings with both quote kinds, long dict entries', probes),
     ], func='core._BBRepr.__init__ / bbrepr')
+
+
+def bounded_path_composition(tier, seed):
+    """Path(...) built from parts: strings / other objects become fuzzy 'P' segments, T expressions contribute their recorded steps unchanged,
+    and a Path used as a part contributes ITS steps unchanged (attribute vs item vs fuzzy access kind preserved) -- so nesting Paths is
+    associative.  Bound: all sequences of <= 3 parts from a catalogue of 9 parts, flat vs every nesting."""
+    import itertools
+    from glom import Path, T
+    parts = [('s', 'a', ('P', 'a')), ('s', 'b.c', ('P', 'b.c')), ('s', 0, ('P', 0)), ('t', T.x, ('.', 'x')), ('t', T['k'], ('[', 'k')), ('t', T[1], ('[', 1)),
+             ('t', T.x['k'], ('.', 'x', '[', 'k')), ('t', T.__star__(), ('x', None)), ('s', None, ('P', None))]
+    cases, failures = 0, []
+    for n in (1, 2, 3):
+        for combo in itertools.product(parts, repeat=n):
+            want = tuple(x for _k, _v, ops in combo for x in ops)
+            vals = [v for _k, v, _o in combo]
+            variants = [('flat', lambda: Path(*vals))]
+            if n >= 2:
+                variants.append(('nested-left', lambda: Path(Path(*vals[:-1]), vals[-1])))
+                variants.append(('nested-right', lambda: Path(vals[0], Path(*vals[1:]))))
+                variants.append(('all-nested', lambda: Path(*[Path(v) for v in vals])))
+            for vname, mk in variants:
+                cases += 1
+                try:
+                    got = mk().path_t.__ops__[1:]
+                except Exception as e:
+                    got = repr(e)
+                if got != want:
+                    if len(failures) < 3:
+                        failures.append({'key': 'path-composition', 'input': {'parts': [repr(v) for v in vals], 'built': vname}, 'observed': repr(got)[:160],
+                                         'expected': repr(want)[:160], 'replay_code': None})
+    return {'name': 'Path built from parts (flat vs nested) keeps every step', 'label': 'bounded', 'cases': cases, 'bound': 'sequences of <= 3 of 9 parts x 4 nestings',
+            'failures': failures}
